@@ -6,7 +6,7 @@ import numpy as np
 import translate_hc
 from common import LEAN, REPO, R, Ro, Cxo, fl
 
-LEAN_MODULES = ["PyomaVerif.Props.C09", "PyomaVerif.Mutants.C09", "PyomaVerif.Props.C09C18", "PyomaVerif.Props.C09All"]
+LEAN_MODULES = ["PyomaVerif.Props.C09", "PyomaVerif.Mutants.C09", "PyomaVerif.Props.C09C18", "PyomaVerif.Props.C09All", "PyomaVerif.Props.C09Blank"]
 THEOREMS = [
     # C09 for all six classes as ONE theorem over the list (program, required fields, which flags exist)
     "PV.C09All.C09_seq_all",
@@ -50,16 +50,26 @@ THEOREMS = [
     "PV.C09.applymask_cell",
     "PV.Mutants.C09.old_SSIdat_fails",
     "PV.Mutants.C09.swapped_thresholds_fail",
+    # the in-place form X[np.logical_not(m)] = np.nan (Stmt.blank; its soundness is a case of PV.Hc.arun_sound)
+    "PV.C09Blank.blank_eq_applymask",
+    "PV.C09Blank.blank_all_tables_ok",
+    "PV.C09Blank.blank_one_table_fails",
+    "PV.C09Blank.blank_one_table_misses_damp",
+    "PV.C09Blank.blank_none_stuck",
 ]
 RULE = (
     "translator: the hard-criteria statements of the six run() bodies are regenerated into Lean on every run and the "
-    "sequencing theorems re-checked by the kernel; correspondence: gen.HC_damp/HC_cov/HC_conj/HC_phi_comp/applymask vs the "
+    "sequencing theorems re-checked by the kernel (its fail-closed rule is self-tested on the current sources: 73 kinds of "
+    "unmodelled writes / mutations / aliases inserted into each run() must be refused, 11 read-only ones and a renaming accepted); correspondence: gen.HC_damp/HC_cov/HC_conj/HC_phi_comp/applymask vs the "
     "Lean cell models on random NaN-bearing tables (exact); oracle: real runs of SSIdat/SSIcov(+uncertainty)/SSIdat_MS/"
     "SSIcov_MS/pLSCF/pLSCF_MS on small random data with random criteria, the unfiltered solution captured from the pole "
     "routine, every cell judged from the property statement. distinct = (class, conj, criteria that actually rejected a pole)"
 )
 EXTRA_TRUSTED = [
-    "harness/translate_hc.py (Python AST -> Lean Stmt list; fails closed on statements outside its grammar)",
+    "harness/translate_hc.py (Python AST -> Lean Stmt list; fails closed on statements outside its grammar: every write, "
+    "in-place mutation or alias of a tracked table / mask / list / threshold / the hc dictionary that is not one of the modelled "
+    "forms aborts the translation; exercised on the sources under test by harness/translate_hc_selftest.py)",
+    "Stmt.blank (`X[np.logical_not(m)] = np.nan`): the translator's argument that no list still in use holds the object written to",
     "Python list-of-arrays snapshot semantics and tuple assignment as modelled by Stmt.bind / Stmt.apply",
     "gen.MPC / gen.MPD values are parameters of the mask model (their own model is C18's)",
 ]
@@ -199,6 +209,24 @@ def correspondence(ctx):
         ctx.corr("gen.applymask", bool(ok), {"t": t.tolist(), "mask": mask.tolist()}, out, o2.tolist(), (rows, cols))
         if k == 0:
             ctx.sample({"HC_damp_table": t.tolist(), "max": mx})
+    _translator_selftest(ctx)
+
+
+def _translator_selftest(ctx):
+    """the fail-closed rule of the translator, exercised on the sources under test: every unmodelled write / in-place
+    mutation / alias of a protected variable inserted into a run() body must be refused, read-only statements and a
+    renaming of the locals must leave the translation unchanged (harness/translate_hc_selftest.py)"""
+    import translate_hc_selftest as ST
+
+    res = ST.run(translate_hc.read_sources(REPO))
+    if not res:
+        ctx.count("translator_selftest_skipped_sources_do_not_translate")
+    for label, ok, detail in res:
+        if ok is None:
+            ctx.count("translator_selftest_template_not_applicable")
+            continue
+        kind = label.split("/")[1].split("@")[0]
+        ctx.corr("translate_hc[fail-closed rule]", bool(ok), {"case": label}, detail, None, kind)
 
 
 # ----------------------------------------------------------------------------- oracle
